@@ -267,6 +267,7 @@ def r5(ctx):
         ctx.check("TradingSummaryGenerator::generate:" + field, ok,
                   "each reported tear sheet is generated from the generator stored under that very key",
                   got=got, want=(src, pair), key="pairing")
+    common.summary_forwarders(ctx)
     # a closed position updates the tear sheet of its own InstrumentState
     IS = "barter::engine::state::instrument::InstrumentState"
     b = ctx.fbody(name="update_from_trade", self_adt=IS, trait="")
